@@ -54,9 +54,21 @@ def _keys(s):
     return [] if s in ('-', '', None) else ['(%r, %r)' % tuple(_unhex(x) for x in k.split('/')) if '/' in k else k for k in s.split(',')]
 
 
-def details(ps, fi, fm):
+ADV_FIELDS = []      # filled from the generator's `advfields` line: body k = the base advisory with ADV_FIELDS[k-1] different
+
+
+def details(ps, fi, fm, case=''):
     """the concrete observation behind a verdict"""
     out = []
+    if ('status' in ps or 'findings' in ps) and case.startswith('scan ') and ADV_FIELDS:
+        import re as _re
+        seen = []
+        for ref, body in _re.findall(r'@\d+\.([0-9a-f-]+)\.(\d+)@', case):
+            k = int(body) % (len(ADV_FIELDS) + 1)
+            d = 'advisory %r = %s' % (_unhex(ref), 'the base advisory' if k == 0 else 'the base advisory except for ' + ADV_FIELDS[k - 1])
+            if d not in seen:
+                seen.append(d)
+        out.append('advisories in this scan: ' + '; '.join(seen[:6]) + ' — scan status %s, %s finding(s) emitted' % (fi.get('st'), 0 if fi.get('findset', '-') == '-' else fi['findset'].count(',') + 1))
     if 'findorder' in ps:
         out.append('emitted (reference, extra) sequence %s; documented order %s' % (', '.join(_keys(fi.get('fkeys'))), ', '.join(_keys(fm.get('sfkeys')))))
     if 'statusorder' in ps:
@@ -141,13 +153,16 @@ TEXT = {
 def run(ctx):
     ctx.trusted = ['Lean 4.33.0 kernel', 'axioms: propext, Quot.sound, Classical.choice at most (see theorems.*.axioms)',
                    'slices.SortFunc returns a sorted permutation (cmpFindings / cmpStatus are strict weak orders on their keys)',
-                   'reflect.DeepEqual on two Advisory values with equal IDs = structural equality of the other fields (no NaN CVSS scores)',
+                   'advisory content is modelled as one number, equal iff the advisories are deeply equal: the harness derives it from a canonical rendering (encoding/json) of the WHOLE value, '
+                   'not from particular fields (no NaN CVSS scores)',
                    'harness/cmd/c20gen + lean/Drivers/C20.lean line protocol', 'Lean compiler for the driver executable']
     ctx.assumptions = ['theorems about tagging/status/failure assume no detector cancels the scan\'s context (cancellation skips the remaining detectors by design; C20_once_prefix covers it)',
                        'findings carried by an extractor\'s inventory (no built-in extractor emits any) are not tagged; they are validated together with the detectors\' findings (fix 89f87523)',
                        'the order of packages handed to packageindex.New is the walk order (roots, files by name, extractors by configuration order): input of this model, subject of C01/C08',
                        'Extractor.ToPURL does not panic (C14)']
-    ctx.rule = ('both tiers: order = 4 prefix-related findings dealt to 3 detectors in every way x every detector listing order (1458 scans) + 18 scans with several roots/statuses; '
+    ctx.rule = ('both tiers: advisory fields = every leaf field and every nil-vs-set pointer of detector.Advisory / Severity / CVSS, enumerated by reflection (list in advisory_fields_enumerated): '
+                'two findings with one advisory ID, distinct objects identical except in that ONE field, both orders, across two detectors / inside one / extractor vs detector, plus all-equal controls; '
+                'order = 4 prefix-related findings dealt to 3 detectors in every way x every detector listing order (1458 scans) + 18 scans with several roots/statuses; '
                 'phases = 6 schedule shapes x (no cancellation | cancelled before the scan | one canceller at every position x it returns nil/err/ctx.Err()) x the other plugins returning nil/err/ctx.Err(). '
                 'random: every 5th case is a phases case. case = (0..3 fake filesystem extractors, 1..3 in-memory roots with 0..3 files each, 0..2 standalone extractors, 0..4 detectors with 0..3 findings each or an index query). '
                 'thorough adds every list of <=3 entries over {2 ids x 2 bodies, no advisory, no id, nil} split over two detectors in every way x detector error. '
@@ -162,8 +177,12 @@ def run(ctx):
         return _nontrivial(case, fi, fm)
 
     def oracle(case, fi, fm):
+        if case == 'advfields':
+            ADV_FIELDS[:] = _unhex(fi.get('fields', '-')).split(',')
+            ctx.extra['advisory_fields_enumerated'] = {'count': int(fi.get('n', '0') or 0), 'single_field_differences': _unhex(fi.get('fields', '-')).split(',')}
+            return None
         ps = problems(case, fi, fm)
-        return ('; '.join(TEXT[p] for p in ps) + details(ps, fi, fm)) if ps else None
+        return ('; '.join(TEXT[p] for p in ps) + details(ps, fi, fm, case)) if ps else None
 
     def classify(case, fi, fm):
         return _classify(case, fi, fm)
@@ -195,7 +214,7 @@ def _borrowed(ctx, only, module, keep, n):
 
     def oracle(case, fi, fm):
         ps = [p for p in problems(case, fi, fm) if p in keep]
-        return ('; '.join(TEXT[p] for p in ps) + details(ps, fi, fm)) if ps else None
+        return ('; '.join(TEXT[p] for p in ps) + details(ps, fi, fm, case)) if ps else None
     args = ['-seed', str(ctx.seed), '-n', str(n), '-tier', 'quick', '-only', only]
     if ctx.prop != 'C20':
         args += ['-also', lib.VERIF + '/corpus/C20/witnesses.case']
